@@ -305,9 +305,6 @@ func cases(thorough bool) []Case {
 				if len(l) == 3 && conc == 2 && !thorough {
 					continue
 				}
-				if len(l) == 4 && conc != 2 {
-					continue
-				}
 				out = append(out, Case{List: l, MustSecure: ms, Concurrent: conc, Loss: "none"})
 			}
 		}
